@@ -58,6 +58,8 @@
 //! `template-size`, `template-cycles`, `template-proposals`, `template-uncles`, `template-cellbase`,
 //! `selector-dup`, `selector-ancestors`, `selector-order`, `selector-limits`, `selector-sums`,
 //! `template-size-bookkeeping` (TemplateSize differs from the real sizes of the template it describes),
+//! `template-updated-from-pool-on-other-tip` (an explicit update_full / update_proposals / update_transactions step
+//! changed proposals or transactions while the pool's snapshot was on another tip than the assembler's),
 //! `template-header-fields`, `template-part-not-fresh` (after an explicit step: number / parent / target follow the
 //! template's own snapshot and epoch; cellbase / extension / dao are what the builders give for it),
 //! `candidate-uncles-overfull` / `-order` / `-count` (directly driven container).
@@ -896,6 +898,32 @@ fn do_astep(w: &mut World, out: &mut Out, kind: u8, back: usize) {
             } else {
                 out.oracle_fail("template-part-not-fresh", &format!("after step {kind}: cellbase/extension/dao fresh = {:?}", r.fresh));
             }
+        }
+    }
+    // --- implementation-only oracle: while the pool's snapshot is on another tip than the assembler's, no
+    // pool-reading path (update_full / update_proposals / update_transactions) may install proposals or
+    // transactions: they would be selected for another chain (other proposal window, other live cells).
+    // (Only these three paths write proposals / transactions on an unchanged tip, and all three are guarded,
+    // so a background update cannot cause this on correct code; update_uncles changes uncles only.)
+    if matches!(kind, 1 | 3 | 4) && r.pool_tip != r.before.tip_hash && r.after.tip_hash == r.before.tip_hash {
+        let (b, a) = (&r.before, &r.after);
+        let bp: HashSet<&ProposalShortId> = b.proposals.iter().collect();
+        let ap: HashSet<&ProposalShortId> = a.proposals.iter().collect();
+        let txs_changed = a.txs.iter().map(|t| &t.0).collect::<Vec<_>>() != b.txs.iter().map(|t| &t.0).collect::<Vec<_>>();
+        if bp != ap || txs_changed {
+            out.oracle_fail(
+                "template-updated-from-pool-on-other-tip",
+                &format!(
+                    "step {kind}: assembler on tip number {} but the pool's snapshot is on another tip; template proposals {} -> {}, txs {} -> {} (work_id {} -> {})",
+                    b.tip_number,
+                    b.proposals.len(),
+                    a.proposals.len(),
+                    b.txs.len(),
+                    a.txs.len(),
+                    b.work_id,
+                    a.work_id
+                ),
+            );
         }
     }
     let mut view_ok = true;
@@ -1849,7 +1877,13 @@ fn gen_order_case(out: &mut Out, base: &Path, rng: &mut Rng, k: u64) {
                     let slack = match mode {
                         0 => 0,
                         1 => rng.range(1, 9),
-                        _ => rng.range(10, 227),
+                        // update_uncles' guard `remain_size > one uncle`: exactly one uncle's size left (refused,
+                        // the container is not even read) and one byte more (an uncle is taken)
+                        _ => match rng.below(5) {
+                            0 | 1 => 228,
+                            2 => 229,
+                            _ => rng.range(10, 227),
+                        },
                     };
                     // fillers (+ at most one adjuster variant) whose sum is closest to room - slack from below
                     let target = room.saturating_sub(slack);
@@ -1872,7 +1906,7 @@ fn gen_order_case(out: &mut Out, base: &Path, rng: &mut Rng, k: u64) {
                         }
                     }
                     let left = room.saturating_sub(best.0);
-                    out.count(if left == 0 { "order-fill-exact" } else if left < 10 { "order-fill-left-lt-proposal-id" } else if left < 228 { "order-fill-left-lt-uncle" } else { "order-fill-loose" });
+                    out.count(if left == 0 { "order-fill-exact" } else if left < 10 { "order-fill-left-lt-proposal-id" } else if left < 228 { "order-fill-left-lt-uncle" } else if left == 228 { "order-fill-left-eq-uncle" } else if left == 229 { "order-fill-left-uncle-plus-1" } else { "order-fill-loose" });
                     let mut o: Vec<usize> = (0..np).filter(|k| best.1 >> k & 1 == 1).collect();
                     if let Some(j) = best.2 {
                         o.push(np + j);
@@ -2026,11 +2060,14 @@ pub fn run(opts: &Opts) {
         for _ in 0..(if opts.thorough() { 12 } else { 3 } * opts.scale) {
             gen_cu_case(&mut out, &base, &mut rng, if opts.thorough() { 6000 } else { 2500 });
         }
-        let cases = if opts.thorough() { 90 } else { 10 } * opts.scale;
-        let fills = if opts.thorough() { 60 } else { 6 } * opts.scale;
-        // 24 = every order (6) x every fill mode (4); the seed rotates which combination comes first
-        let orders = if opts.thorough() { 72 } else { 24 } * opts.scale;
+        let cases = if opts.thorough() { 90 } else { 7 } * opts.scale;
+        let fills = if opts.thorough() { 60 } else { 4 } * opts.scale;
+        // 24 = every order (6) x every fill mode (4). Thorough runs all of them three times; quick runs 16 of
+        // the 24 combinations, walking them with stride 7 (coprime to 24: distinct combinations, every order at
+        // least twice and every fill mode at least three times in each run); the seed rotates the start
+        let orders = if opts.thorough() { 72 } else { 16 } * opts.scale;
         let rot = opts.seed % 24;
+        let stride = if opts.thorough() { 1 } else { 7 };
         for i in 0..cases.max(fills).max(orders) {
             if i < cases {
                 let steps = rng.range(40, 90);
@@ -2040,7 +2077,7 @@ pub fn run(opts: &Opts) {
                 gen_fill_case(&mut out, &base, &mut rng, i % 3);
             }
             if i < orders {
-                gen_order_case(&mut out, &base, &mut rng, i + rot);
+                gen_order_case(&mut out, &base, &mut rng, (i * stride + rot) % 24);
             }
         }
     }
